@@ -283,3 +283,27 @@ let () =
       (match gen_prefixes cs with
        | GPOk l -> "ok " ^ (if l = [] then "-" else String.concat "," (List.map (fun ((s, ln), v) -> n_to_string s ^ ":" ^ n_to_string ln ^ ":" ^ n_to_string v) l))
        | GPInvalid -> "invalid"))
+
+(* xhonest <hexdata> <hexcontent|-> : the decidable hypothesis of the C07 refinement
+   theorem (XFlate/RefineCheck.v honest_stream) for this stream and content.
+   xspec <hexcontent|-> op... : the ReadSeeker specification sp_run over the content *)
+let () =
+  register "xhonest" (fun args -> match args with
+    | [hex; chex] ->
+      let c = if chex = "-" then [] else bytes_of_hex chex in
+      if honest_stream (bytes_of_hex hex) c then "honest" else "NOT-honest"
+    | _ -> "badargs");
+  register "xspec" (fun args -> match args with
+    | chex :: ops ->
+      let c = if chex = "-" then [] else bytes_of_hex chex in
+      let rops = List.map (fun o -> match colon o with
+        | ["s"; off; wh] -> RSeek (z_of_string off, z_of_string wh)
+        | ["r"; n] -> RRead (n_of_string n)
+        | _ -> RClose) ops in
+      let (obs, _) = sp_run c { sp_pos = Z0; sp_err = None } rops in
+      let os = String.concat "," (List.map (fun o -> match o with
+        | OSeek (p, e) -> Printf.sprintf "s:%s:%s" (if e = None then z_to_string p else "0") (oerr_name e)
+        | ORead (b, e) -> Printf.sprintf "r:%s:%s" (hex_of_bytes b) (oerr_name e)
+        | OClose e -> Printf.sprintf "c:%s" (oerr_name e)) obs) in
+      Printf.sprintf "open:nil|%s|" (if os = "" then "-" else os)
+    | _ -> "badargs")
